@@ -12,13 +12,13 @@ Local Definition nof : bytes -> Z -> bytes := fun _ _ => [].
    allowed - a dot and up to two digits *)
 Lemma scan_struct al pr s fl wp rem : scan al pr true s = (fl, wp, rem) ->
   exists w dotp, wp = w ++ dotp /\ forallb c_isdigit w = true /\
-    (dotp = [] \/ (pr = true /\ exists p, dotp = 46 :: p /\ forallb c_isdigit p = true)) /\
-    (wp = [] \/ hd0 wp <> 48).
+    (dotp = [] \/ (pr = true /\ exists p, dotp = 46 :: p /\ forallb c_isdigit p = true /\ (length p <= 2)%nat)) /\
+    (wp = [] \/ hd0 wp <> 48) /\ (length w <= 2)%nat.
 Proof.
   unfold scan. destruct (span al s) as [f s1].
   destruct (Z.eqb_spec (hd0 s1) 48) as [H48|H48]; cbn [andb].
-  { intros E. inversion E. subst. exists [], []. repeat split; try reflexivity; left; reflexivity. }
-  destruct (take2 s1) as [w s2] eqn:E2. pose proof (take2_app _ _ _ E2) as Ea. destruct (take2_digits nof _ _ _ E2) as [Hd _].
+  { intros E. inversion E. subst. exists [], []. repeat split; try reflexivity; try (left; reflexivity). cbn; lia. }
+  destruct (take2 s1) as [w s2] eqn:E2. pose proof (take2_app _ _ _ E2) as Ea. destruct (take2_digits nof _ _ _ E2) as [Hd Hl2].
   assert (Hw : w = [] \/ hd0 w <> 48).
   { destruct w as [|x w']; [left; reflexivity|right]. subst s1. exact H48. }
   destruct s2 as [|c s3].
@@ -27,10 +27,10 @@ Proof.
   2:{ intros E; inversion E; subst. exists wp, []. rewrite app_nil_r. repeat split; try assumption. left; reflexivity. }
   destruct pr.
   2:{ intros E; inversion E; subst. exists wp, []. rewrite app_nil_r. repeat split; try assumption. left; reflexivity. }
-  destruct (take2 s3) as [p s4] eqn:E3. destruct (take2_digits nof _ _ _ E3) as [Hd3 _].
+  destruct (take2 s3) as [p s4] eqn:E3. destruct (take2_digits nof _ _ _ E3) as [Hd3 Hl3].
   intros E; inversion E; subst. exists w, (46 :: p). split; [reflexivity|]. split; [exact Hd|].
-  split; [right; split; [reflexivity|exists p; split; [reflexivity|exact Hd3]]|].
-  right. destruct Hw as [->|Hw]; [cbn; lia|]. destruct w; [cbn; lia|exact Hw].
+  split; [right; split; [reflexivity|exists p; split; [reflexivity|split; [exact Hd3|exact Hl3]]]|].
+  split; [|exact Hl2]. right. destruct Hw as [->|Hw]; [cbn; lia|]. destruct w; [cbn; lia|exact Hw].
 Qed.
 
 Lemma forallb_impl {A} (P Q : A -> bool) l : (forall x, P x = true -> Q x = true) -> forallb P l = true -> forallb Q l = true.
@@ -39,12 +39,14 @@ Proof. intros H. rewrite !forallb_forall. intros Hl x Hx. apply H, Hl, Hx. Qed.
 (* the C library's reading of a well-formed specification *)
 Lemma c99_parse_ok fl w dotp ll c :
   forallb isflagF fl = true -> forallb c_isdigit w = true -> (w = [] \/ hd0 w <> 48) ->
-  (dotp = [] \/ exists p, dotp = 46 :: p /\ forallb c_isdigit p = true) ->
+  (dotp = [] \/ exists p, dotp = 46 :: p /\ forallb c_isdigit p = true /\ (length p <= 2)%nat) ->
   (ll = [] \/ ll = LL) -> c_isalpha c = true -> c <> 108 ->
   exists sp, c99_parse (37 :: fl ++ w ++ dotp ++ ll ++ [c]) = Some sp /\
     c_conv sp = c /\ c_ll sp = (match ll with [] => false | _ => true end) /\
     f_hash sp = mem 35 fl /\ f_zero sp = mem 48 fl /\
-    (dotp = [] -> c_prec sp = None).
+    (dotp = [] -> c_prec sp = None) /\
+    c_width sp = dec_value 0 w /\
+    (forall p, dotp = 46 :: p -> c_prec sp = Some (dec_value 0 p)).
 Proof.
   intros Hfl Hw Hw0 Hdot Hll Hc Hl.
   destruct (alpha_not_spanset c Hc) as (_ & HcF & Hcd & Hc46).
@@ -53,33 +55,33 @@ Proof.
   (* flags *)
   assert (St1 : stops isflagF (w ++ dotp ++ ll ++ [c])).
   { destruct w as [|x w']; cbn [app].
-    - destruct Hdot as [-> | (p & -> & _)]; [|reflexivity]. cbn [app].
+    - destruct Hdot as [-> | (p & -> & _ & _)]; [|reflexivity]. cbn [app].
       destruct Hll as [-> | ->]; [exact HcF|reflexivity].
     - cbn. cbn in Hw. apply andb_true_iff in Hw. destruct Hw as [Hx _]. destruct Hw0 as [Hw0|Hw0]; [discriminate|]. cbn in Hw0.
       unfold c_isdigit, between in Hx. unfold isflagF. lia. }
   rewrite (span_unique isflagF fl _ Hfl St1).
   (* width *)
   assert (St2 : stops c_isdigit (dotp ++ ll ++ [c])).
-  { destruct Hdot as [-> | (p & -> & _)]; [|reflexivity]. cbn [app]. destruct Hll as [-> | ->]; [exact Hcd|exact Hlnd]. }
+  { destruct Hdot as [-> | (p & -> & _ & _)]; [|reflexivity]. cbn [app]. destruct Hll as [-> | ->]; [exact Hcd|exact Hlnd]. }
   rewrite (span_unique c_isdigit w _ Hw St2).
-  destruct Hdot as [-> | (p & -> & Hp)]; cbn [app].
+  destruct Hdot as [-> | (p & -> & Hp & _)]; cbn [app].
   - (* no precision *)
     assert (H46 : hd0 (ll ++ [c]) =? 46 = false).
     { destruct Hll as [-> | ->]; cbn; [destruct (Z.eqb_spec c 46); [contradiction|reflexivity]|reflexivity]. }
     rewrite H46.
     destruct Hll as [-> | ->]; cbn [app hd0 tl LL].
     + destruct (Z.eqb_spec c 108); [contradiction|]. cbn [andb].
-      eexists. split; [reflexivity|]. cbn. repeat split; reflexivity.
+      eexists. split; [reflexivity|]. cbn. repeat split; try reflexivity; intros p0 Hp0; discriminate Hp0.
     + change (108 =? 108) with true. cbn [andb tl].
-      eexists. split; [reflexivity|]. cbn. repeat split; reflexivity.
+      eexists. split; [reflexivity|]. cbn. repeat split; try reflexivity; intros p0 Hp0; discriminate Hp0.
   - cbn [hd0 tl]. change (46 =? 46) with true.
     assert (St3 : stops c_isdigit (ll ++ [c])) by (destruct Hll as [-> | ->]; [exact Hcd|exact Hlnd]).
     rewrite (span_unique c_isdigit p _ Hp St3).
     destruct Hll as [-> | ->]; cbn [app hd0 tl LL].
     + destruct (Z.eqb_spec c 108); [contradiction|]. cbn [andb].
-      eexists. split; [reflexivity|]. cbn. repeat split; try reflexivity. discriminate.
+      eexists. split; [reflexivity|]. cbn. repeat split; try reflexivity; try discriminate; intros p0 Hp0; inversion Hp0; reflexivity.
     + change (108 =? 108) with true. cbn [andb tl].
-      eexists. split; [reflexivity|]. cbn. repeat split; try reflexivity. discriminate.
+      eexists. split; [reflexivity|]. cbn. repeat split; try reflexivity; try discriminate; intros p0 Hp0; inversion Hp0; reflexivity.
 Qed.
 
 Lemma mem_not_allowed (al : Z -> bool) c fl : forallb al fl = true -> al c = false -> mem c fl = false.
@@ -98,7 +100,8 @@ Lemma checked_form rest form conv rest' (flags : Z -> bool) prec :
   nl_scanformat rest = Val (form, conv, rest') -> c_isalpha conv = true ->
   (let '(_, _, rem) := scan flags prec true (tl form) in hd0 rem =? conv) = true ->
   exists fl w dotp, form = 37 :: fl ++ w ++ dotp ++ [conv] /\ forallb flags fl = true /\ forallb c_isdigit w = true /\
-    (w = [] \/ hd0 w <> 48) /\ (dotp = [] \/ (prec = true /\ exists p, dotp = 46 :: p /\ forallb c_isdigit p = true)).
+    (w = [] \/ hd0 w <> 48) /\ (dotp = [] \/ (prec = true /\ exists p, dotp = 46 :: p /\ forallb c_isdigit p = true /\ (length p <= 2)%nat)) /\
+    (length w <= 2)%nat.
 Proof.
   unfold nl_scanformat. destruct (scan isflagF true false rest) as [[flF wpF] remF] eqn:E.
   destruct (NL_MAXFLAGS <? slen flF); [discriminate|].
@@ -112,10 +115,10 @@ Proof.
   destruct rem as [|c0 t]; [cbn in Hh; rewrite <- Hh in Ha; discriminate Ha|]. cbn [hd0] in Hh. subst c0.
   pose proof (scan_app _ _ _ _ _ _ _ Es) as Eapp. rewrite app_assoc in Eapp.
   destruct (last_alpha _ _ _ _ _ Hall Ha Eapp) as (-> & _ & Esp).
-  destruct (scan_struct _ _ _ _ _ _ Es) as (w & dotp & Ewp & Hw & Hdot & H48).
+  destruct (scan_struct _ _ _ _ _ _ Es) as (w & dotp & Ewp & Hw & Hdot & H48 & Hlw).
   exists fl, w, dotp. split.
   - rewrite Esp, Ewp. rewrite <- !app_assoc. reflexivity.
-  - split; [exact (scan_flags _ _ _ _ _ _ _ Es)|]. split; [exact Hw|]. split; [|exact Hdot].
+  - split; [exact (scan_flags _ _ _ _ _ _ _ Es)|]. split; [exact Hw|]. split; [|split; [exact Hdot|exact Hlw]].
     destruct w as [|x w']; [left; reflexivity|right]. destruct H48 as [H48|H48]; [rewrite Ewp in H48; discriminate|].
     rewrite Ewp in H48. exact H48.
 Qed.
@@ -149,10 +152,10 @@ Proof.
             (let '(_, _, rem) := scan flags true true (tl form) in hd0 rem =? c) = true ->
             c99_snprintf cfloat (addlenmod form LL) (AInt v) <> None).
   { intros flags c v S' Ha Hl Hi Sub Hh K'.
-    destruct (checked_form _ _ _ _ _ _ S' Ha K') as (fl & w & dotp & Ef & Hfl & Hw & Hw0 & Hd).
-    assert (Hd' : dotp = [] \/ exists p, dotp = 46 :: p /\ forallb c_isdigit p = true) by (destruct Hd as [Hd|[_ Hd]]; [left|right]; exact Hd).
+    destruct (checked_form _ _ _ _ _ _ S' Ha K') as (fl & w & dotp & Ef & Hfl & Hw & Hw0 & Hd & Hlw).
+    assert (Hd' : dotp = [] \/ exists p, dotp = 46 :: p /\ forallb c_isdigit p = true /\ (length p <= 2)%nat) by (destruct Hd as [Hd|[_ Hd]]; [left|right]; exact Hd).
     destruct (c99_parse_ok fl w dotp LL c (forallb_impl _ _ _ Sub Hfl) Hw Hw0 Hd' (or_intror eq_refl) Ha Hl)
-      as (sp & Ep & Ec & Ell & Eh & _ & _).
+      as (sp & Ep & Ec & Ell & Eh & _ & _ & _ & _).
     subst form. replace (37 :: fl ++ w ++ dotp ++ [c]) with (37 :: (fl ++ w ++ dotp) ++ [c]) by (rewrite <- !app_assoc; reflexivity).
     rewrite addlenmod_shape. rewrite <- !app_assoc. unfold c99_snprintf. rewrite Ep, Ec, Hi, Ell, Eh. cbn [negb LL].
     destruct Hh as [Hh|Hh].
@@ -165,10 +168,10 @@ Proof.
             exists sp, c99_parse form = Some sp /\ c_conv sp = c /\ c_ll sp = false /\
                        (flags 35 = false -> f_hash sp = false) /\ (flags 48 = false -> f_zero sp = false) /\ (prec = false -> c_prec sp = None)).
   { intros flags prec c S' Ha Hl Sub K'.
-    destruct (checked_form _ _ _ _ _ _ S' Ha K') as (fl & w & dotp & Ef & Hfl & Hw & Hw0 & Hd).
-    assert (Hd' : dotp = [] \/ exists p, dotp = 46 :: p /\ forallb c_isdigit p = true) by (destruct Hd as [Hd|[_ Hd]]; [left|right]; exact Hd).
+    destruct (checked_form _ _ _ _ _ _ S' Ha K') as (fl & w & dotp & Ef & Hfl & Hw & Hw0 & Hd & Hlw).
+    assert (Hd' : dotp = [] \/ exists p, dotp = 46 :: p /\ forallb c_isdigit p = true /\ (length p <= 2)%nat) by (destruct Hd as [Hd|[_ Hd]]; [left|right]; exact Hd).
     destruct (c99_parse_ok fl w dotp [] c (forallb_impl _ _ _ Sub Hfl) Hw Hw0 Hd' (or_introl eq_refl) Ha Hl)
-      as (sp & Ep & Ec & Ell & Eh & Ez & Epr).
+      as (sp & Ep & Ec & Ell & Eh & Ez & Epr & _ & _).
     exists sp. cbn [app] in Ep. rewrite Ef. split; [exact Ep|]. split; [exact Ec|]. split; [exact Ell|].
     split; [intros H; rewrite Eh; apply (mem_not_allowed flags 35 fl Hfl H)|].
     split; [intros H; rewrite Ez; apply (mem_not_allowed flags 48 fl Hfl H)|].
